@@ -660,7 +660,7 @@ func propC09(c *Ctx) int {
 	if thorough {
 		maxSpan = 8
 	}
-	for doc := int64(0); doc < 7; doc++ {
+	for doc := int64(0); doc < 8; doc++ {
 		for span := int64(1); span <= maxSpan; span++ {
 			j := base
 			j.Name, j.Params = fmt.Sprintf("split doc#%d span=%d", doc, span), map[string]int64{"doc": doc, "span": span, "depth": 1}
